@@ -11,6 +11,14 @@ CHECKS = {
          "for every training set with n<=4 / n<=5 and batches of 1-2 queries, both weight branches, supervised and semi-supervised", "4 C03"),
  "C04": ("bounded symbolic execution (z3) of fit+predict(X_train) under tie-free weights; KNN part: symbolic clustering with force_prototype",
          "supervised: n<=4 / n<=5; KNN-supervised: see evidence bounds", "4 C04"),
+ "C05": ("bounded symbolic execution (z3) of the real Heap: inductive step from an arbitrary invariant-satisfying symbolic state per operation, base case, and bounded operation histories with a ghost set",
+         "inductive: every capacity 1..7 (quick) / 1..15 (thorough), both policies, every fill level, every operation with symbolic arguments => histories of any length for those capacities; nothing claimed for larger capacities", "4 C05"),
+ "C11": ("bounded symbolic execution (z3) of paired fits: adjacent transpositions of the training order and order-isomorphic weight matrices, tie-free inputs",
+         "n<=4 (quick) / n<=5 (thorough) training samples and one symbolic query", "4 C11"),
+ "C15": ("bounded symbolic execution (z3) of SemiSupervisedOPF.fit on symbolic weights; minimax, some-MST and supervised-equivalence oracles",
+         "labeled+unlabeled <= 4 (quick) / 5 (thorough)", "4 C15"),
+ "C20": ("bounded symbolic execution (z3) of opfython.math.general on symbolic label/prediction vectors and matrices against the definitions (LIA/NRA obligations)",
+         "vectors of length <= 5, K <= 3 (quick) / <= 7, K <= 4 (thorough); normalize up to 3x2 / 5x2", "4 C20"),
 }
 
 def main():
